@@ -44,11 +44,13 @@ type call struct {
 }
 
 type funcInfo struct {
-	name     string
-	accesses []access
-	calls    []call
-	returns  int
-	closes   []string // channel-typed fields closed with close(...)
+	name         string
+	accesses     []access
+	calls        []call
+	returns      int
+	closes       []string          // channel-typed fields closed with close(...)
+	acquires     map[string][2]int // lock -> number of Lock() / RLock() call sites in the function body
+	chanAccesses []access          // accesses to channel-typed fields (not part of the race table)
 }
 
 // struct type of well-known receiver / variable names per package directory
@@ -56,16 +58,16 @@ var structsOf = map[string]map[string]string{}
 
 // field types that lead to other analysed structs
 var fieldType = map[string]string{
-	"Store.index":             "Index",
-	"Store.freelist":          "FreeList",
-	"Store.fileCache":         "FileCache",
-	"primaryGC.primary":       "MultihashPrimary",
-	"primaryGC.freeList":      "FreeList",
-	"MultihashPrimary.gc":     "primaryGC",
-	"Index.fileCache":         "FileCache",
+	"Store.index":                "Index",
+	"Store.freelist":             "FreeList",
+	"Store.fileCache":            "FileCache",
+	"primaryGC.primary":          "MultihashPrimary",
+	"primaryGC.freeList":         "FreeList",
+	"MultihashPrimary.gc":        "primaryGC",
+	"Index.fileCache":            "FileCache",
 	"MultihashPrimary.fileCache": "FileCache",
-	"Iterator.index":          "Index",
-	"Index.Primary":           "PrimaryStorage",
+	"Iterator.index":             "Index",
+	"Index.Primary":              "PrimaryStorage",
 }
 
 // lock fields and whether they are RW mutexes
@@ -198,6 +200,15 @@ func main() {
 	emit(out)
 }
 
+func (fi *funcInfo) acquire(lock string, mode int) {
+	if fi.acquires == nil {
+		fi.acquires = map[string][2]int{}
+	}
+	a := fi.acquires[lock]
+	a[mode]++
+	fi.acquires[lock] = a
+}
+
 func isKnownStruct(t string) bool {
 	for k := range fieldKind {
 		if strings.HasPrefix(k, t+".") {
@@ -275,6 +286,9 @@ func (w *walker) fieldOf(e ast.Expr) string {
 }
 
 func (w *walker) record(field string, write bool, locks []lockHeld, pos token.Pos) {
+	if fieldKind[field] == "chan" {
+		w.fi.chanAccesses = append(w.fi.chanAccesses, access{field: field, write: write, locks: copyLocks(locks), fn: w.fi.name, line: fset.Position(pos).Line})
+	}
 	if fieldKind[field] != "data" {
 		return
 	}
@@ -293,8 +307,10 @@ func (w *walker) expr(e ast.Expr, locks []lockHeld) []lockHeld {
 			if lf := w.fieldOf(sel.X); lf != "" && fieldKind[lf] == "lock" {
 				switch sel.Sel.Name {
 				case "Lock":
+					w.fi.acquire(lf, 0)
 					return append(locks, lockHeld{lf, "w"})
 				case "RLock":
+					w.fi.acquire(lf, 1)
 					return append(locks, lockHeld{lf, "r"})
 				case "Unlock", "RUnlock":
 					for i := len(locks) - 1; i >= 0; i-- {
